@@ -19,12 +19,16 @@ from migen import Module, Signal
 from migen.util.misc import xdir
 from litex.soc.interconnect import csr_bus
 from litex.soc.interconnect import csr_eventmanager as evm
+from litex.soc.interconnect.csr import AutoCSR
 
 KIND_NAMES = {"p": "pulse", "r": "rising", "f": "falling", "l": "level"}
 PAGE_BITS = 9          # CSRBank: paging 0x800 bytes -> 0x200 words
 
 
-def make_source(kind, name):
+def make_source(kind, name, defaults=False):
+    """`defaults`: use the constructors' default-argument paths (EventSourceProcess() is a falling-edge source)."""
+    if defaults and kind == "f":
+        return evm.EventSourceProcess(name=name)
     if kind == "p":
         return evm.EventSourcePulse(name=name)
     if kind == "r":
@@ -51,10 +55,17 @@ def vec(bits):
 
 class EvTop(Module):
     """EventManager with the given sources + its CSRs in a real CSRBank."""
-    def __init__(self, kinds, dw, ordering="big", page=0):
+    def __init__(self, kinds, dw, ordering="big", page=0, variant=False):
+        """`variant`: attribute names whose alphabetical order is the reverse of the creation order (the bit order
+        must follow creation order = duid, not `xdir` order), sources attached in reverse order, default-argument
+        constructors."""
         self.ev = ev = evm.EventManager()
-        for k, kind in enumerate(kinds):
-            setattr(ev, "e%d" % k, make_source(kind, "e%d" % k))
+        nk = len(kinds)
+        names = [("z%03d" % (nk - k)) if variant else ("e%d" % k) for k in range(nk)]
+        made = [make_source(kind, names[k], defaults=variant) for k, kind in enumerate(kinds)]
+        self.made_sources = made                         # creation order = bit order (constructor arguments)
+        for k in (reversed(range(nk)) if variant else range(nk)):
+            setattr(ev, names[k], made[k])
         self.submodules += ev
         ev.finalize()
         self.bus = csr_bus.Interface(data_width=dw, address_width=14)
@@ -62,15 +73,31 @@ class EvTop(Module):
         self.submodules += self.bank
 
 
+class StructureMismatch(Exception):
+    pass
+
+
 class EvView:
     """Ports of one real EventManager behind a real CSRBank (found by object identity, never by name)."""
-    def __init__(self, ev, bank, bus, kinds, page=0, ordering="big"):
+    def __init__(self, ev, bank, bus, kinds, page=0, ordering="big", dw=None, srcs=None):
+        """Sizes come from the arguments the instance was built with (`kinds`, `dw`), never from signal widths; the
+        real CSRs are then checked against them (a mismatch is raised and ends as a reported violation)."""
         self.ev, self.bank, self.bus, self.kinds, self.page, self.ordering = ev, bank, bus, list(kinds), page, ordering
-        self.srcs = sorted([v for _, v in xdir(ev, True) if isinstance(v, evm._EventSource)], key=lambda s: s.duid)
-        assert len(self.srcs) == len(self.kinds)
-        self.n = len(self.srcs)
-        self.bw = len(bus.dat_w)
+        found = sorted([v for _, v in xdir(ev, True) if isinstance(v, evm._EventSource)], key=lambda s: s.duid)
+        self.srcs = list(srcs) if srcs is not None else found
+        self.n = len(self.kinds)
+        if dw is None:
+            raise ValueError("EvView needs the CSR bus width the instance was built with")
+        self.bw = dw
         self.nw = (self.n + self.bw - 1) // self.bw
+        if len(found) != self.n or len(self.srcs) != self.n:
+            raise StructureMismatch("%d event sources found in the EventManager, %d were attached" % (len(found), self.n))
+        for reg in (ev.status, ev.pending, ev.enable):
+            sizes = sorted(c.size for c in reg.simple_csrs)
+            want = sorted(self.word_bits(w) for w in range(self.nw))
+            if reg.size != self.n or sizes != want:
+                raise StructureMismatch("CSR %s: size %d, words %s; expected size %d, words %s (n=%d, bus %d bits)"
+                                        % (reg.name, reg.size, sizes, self.n, want, self.n, self.bw))
         local = list(ev.status.simple_csrs) + list(ev.pending.simple_csrs) + list(ev.enable.simple_csrs)
         ids = [id(c) for c in bank.simple_csrs]
         self.index_of_local = [ids.index(id(c)) for c in local]          # local index -> index in the bank
@@ -147,8 +174,9 @@ class LostEventMonitor:
        - pending never rises without an event; an addressed clear without a coinciding event clears;
        - level sources: pending == trigger; status == trigger (0 for pulse sources)."""
 
-    def __init__(self, view, get_obs, get_bus, strict=True):
+    def __init__(self, view, get_obs, get_bus, strict=True, foreign_reads=False):
         self.v = view
+        self.foreign_reads = foreign_reads      # the bank holds other registers too: unmapped reads are not checked
         self.get_obs = get_obs          # () -> dict of the current cycle (sampled before the edge)
         self.get_bus = get_bus          # letter -> (local index, we, dat)
         self.strict = strict
@@ -158,6 +186,7 @@ class LostEventMonitor:
         self.shadow_en = [0] * n
         self.last_word = {}             # pending word -> (value, fresh)
         self.ack_next = set()           # acked bits of the write of the previous cycle (clear acts in this cycle)
+        self.prev_read = None           # value the bus must return in this cycle (addressed in the previous one)
 
     def observe(self, letter, outs):
         v = self.v
@@ -183,8 +212,22 @@ class LostEventMonitor:
                 msg = "level source %d: pending=%d trigger=%d" % (k, pend[k], trig[k])
             elif o["stat"][k] != (0 if kind == "p" else trig[k]):
                 msg = "status bit %d = %d, trigger = %d (kind %s)" % (k, o["stat"][k], trig[k], KIND_NAMES[kind])
+        # --- what software reads: the word addressed in the previous cycle, as the register was then
+        if msg is None and self.prev_read is not None and o["dat_r"] != self.prev_read[1]:
+            msg = "bus read of %s returned %#x, the register held %#x" % (self.prev_read[0], o["dat_r"], self.prev_read[1])
+        self.prev_read = None
+        d = v.doc_decode(local)
+        if d is not None:
+            reg, word = d
+            bits = (o["stat"], pend, self.shadow_en)[reg]
+            lo = word * v.bw
+            self.prev_read = ("status pending enable".split()[reg] + "[word %d]" % word,
+                              vec(bits[lo:lo + v.word_bits(word)]))
+        elif not self.foreign_reads:
+            self.prev_read = ("an unmapped index", 0)
         # --- claims about the step from the previous cycle to this one
         acting = self.ack_next
+        self.acting_now = acting
         if self.prev is not None and msg is None:
             ppend, pevent, pacting = self.prev
             for k in range(n):
@@ -245,11 +288,12 @@ class EvInst:
     """letter = (trig, bus.adr, bus.we, bus.dat_w, bus.re)"""
 
     def __init__(self, kinds, dw, ordering="big", masks="all", reads=True, disciplined=True, tag="", trigs=None,
-                 extra=True, en_masks=None):
+                 extra=True, en_masks=None, page=0, variant=False):
         self.kinds = list(kinds)
-        self.top = EvTop(self.kinds, dw, ordering)
+        self.top = EvTop(self.kinds, dw, ordering, page=page, variant=variant)
         self.netlist = Netlist(self.top)
-        self.view = v = EvView(self.top.ev, self.top.bank, self.top.bus, self.kinds, 0, ordering)
+        self.view = v = EvView(self.top.ev, self.top.bank, self.top.bus, self.kinds, page, ordering, dw=dw,
+                               srcs=self.top.made_sources)
         self.name = "EventManager[%s]/csr%d%s%s" % (kinds_text(self.kinds), dw,
                                                     "/little" if ordering == "little" else "", tag)
         self.lean_open = "ev %d %d %s" % (dw, 1 if ordering == "little" else 0, " ".join(self.kinds))
@@ -278,9 +322,18 @@ class EvInst:
                     ms = masks
                 ops += [(v.bus_adr(v.local_index(reg, w)), 1, m, 0) for m in ms]
         full = (1 << min(dw, 8)) - 1
+        busfull = (1 << dw) - 1
+        if extra:
+            # ones everywhere EXCEPT the register's own bits (and everywhere): bits above the register do nothing
+            w0 = v.word_bits(0)
+            for reg in (1, 2):
+                a = v.bus_adr(v.local_index(reg, 0))
+                for m in {busfull & ~((1 << w0) - 1), busfull}:
+                    if m >> w0:
+                        ops.append((a, 1, m, 0))
         if extra:
             ops.append((v.bus_adr(v.local_index(0, 0)), 1, full, 0))                             # write to status: no effect
-            ops.append(((1 << PAGE_BITS) | v.bus_adr(v.local_index(1, 0)), 1, full, 0))          # other page: no effect
+            ops.append((((page + 1) << PAGE_BITS) | (v.bus_adr(v.local_index(1, 0)) & ((1 << PAGE_BITS) - 1)), 1, full, 0))  # other page
         tv = trigs if trigs is not None else range(1 << n)
         self.alphabet = [(t,) + op for t in tv for op in ops]
 
@@ -338,7 +391,10 @@ class EvInst:
             seq = []
             for l in range(reg * v.nw, (reg + 1) * v.nw):
                 _, w = v.doc_decode(l)
-                seq.append((v.bus_adr(l), (value >> (w * v.bw)) & ((1 << v.bw) - 1)))
+                d = (value >> (w * v.bw)) & ((1 << v.bw) - 1)
+                if rng.random() < 0.5:          # ones above the register's bits: must be ignored
+                    d |= rng.getrandbits(v.bw) & ~((1 << v.word_bits(w)) - 1)
+                seq.append((v.bus_adr(l), d))
             adr, dat = seq.pop(0)
             self._queue = seq
             return (trig, adr, 1, dat, 0)
@@ -385,7 +441,8 @@ class SharedInst:
     def __init__(self, kinds_list, dw, ordering="big", small=False):
         self.top = SharedTop(kinds_list, dw, ordering)
         self.netlist = Netlist(self.top)
-        self.views = [EvView(t.ev, t.bank, t.bus, k, 0, ordering) for t, k in zip(self.top.tops, kinds_list)]
+        self.views = [EvView(t.ev, t.bank, t.bus, k, 0, ordering, dw=dw, srcs=t.made_sources)
+                      for t, k in zip(self.top.tops, kinds_list)]
         self.name = "SharedIRQ[%s]/csr%d" % (" | ".join(kinds_text(ks) for ks in kinds_list), dw)
         self.lean_open = "shared " + " | ".join("%d %d %s" % (dw, 1 if ordering == "little" else 0, " ".join(ks))
                                                 for ks in kinds_list)
@@ -443,7 +500,7 @@ class SharedInst:
             elif x < 0.6:
                 op = (v.bus_adr(rng.randrange(3 * v.nw)), 0, 0)
             else:
-                op = (v.bus_adr(rng.randrange(v.nw, 3 * v.nw)), 1, rng.getrandbits(min(v.bw, v.n)))
+                op = (v.bus_adr(rng.randrange(v.nw, 3 * v.nw)), 1, rng.getrandbits(v.bw))
             out += [trig, op[0], op[1], op[2]]
         return tuple(out)
 
@@ -472,7 +529,7 @@ class ClientInst:
         self.core = core
         self.top = ClientTop(core, dw, ordering)
         self.netlist = Netlist(self.top)
-        self.view = v = EvView(core.ev, self.top.bank, self.top.bus, kinds, 0, ordering)
+        self.view = v = EvView(core.ev, self.top.bank, self.top.bus, kinds, 0, ordering, dw=dw)
         self.name = "%s/csr%d" % (name, dw)
         self.lean_open = "ev %d %d %s" % (dw, 1 if ordering == "little" else 0, " ".join(kinds))
         self.qual = [None] * 5
@@ -516,7 +573,7 @@ class ClientInst:
         return bool(outs[0] or outs[2] or outs[3])
 
     def monitor(self):
-        return LostEventMonitor(self.view, lambda: self.last_obs, self.bus_of, strict=True)
+        return LostEventMonitor(self.view, lambda: self.last_obs, self.bus_of, strict=True, foreign_reads=True)
 
     def gen(self, rng, t):
         v = self.view
@@ -581,3 +638,214 @@ class GpioInst(ClientInst):
         l, we, dat = self.bus_of(letter)
         i, m, e = self.trig_log[letter[0]]
         return (i, m, e, l, we, dat)
+
+
+class UartRxMonitor:
+    """UART client oracle on top of the lost-event monitor: the rx event is "the rx FIFO has a character"; writing a
+    one to its pending bit pops exactly one character one cycle later (with rx_fifo_rx_we also a bus read of rxtx).
+    Scoreboard: characters accepted at the sink are presented at rxtx in order, each until it is popped; an accepted
+    character shows up within a few cycles."""
+
+    def __init__(self, inst, rx_we):
+        self.inst, self.rx_we = inst, rx_we
+        self.base = LostEventMonitor(inst.view, lambda: inst.last_obs, inst.bus_of, strict=True, foreign_reads=True)
+        self.q = []
+        self.wait = 0
+        ids = [id(c) for c in inst.top.bank.simple_csrs]
+        self.rxtx = ids.index(id(inst.core._rxtx))
+
+    def observe(self, letter, outs):
+        m = self.base.observe(letter, outs)
+        if m:
+            return m
+        inst, n, core = self.inst, self.inst.netlist, self.inst.core
+        u = inst.last_uart
+        t, sv, sd, sr, adr, we, dat, re = letter
+        if u["rx_valid"]:
+            self.wait = 0
+            if not self.q:
+                return "rx FIFO presents a character although none is outstanding"
+            if u["rxtx_w"] != self.q[0]:
+                return "rxtx shows %#x, the oldest unread character is %#x" % (u["rxtx_w"], self.q[0])
+        elif self.q:
+            self.wait += 1
+            if self.wait > 8:
+                return "an accepted character was not presented at rxtx within 8 cycles"
+        if inst.last_obs["trig"][1] != u["rx_valid"]:
+            return "rx trigger = %d but rx FIFO valid = %d" % (inst.last_obs["trig"][1], u["rx_valid"])
+        pop = 1 in self.base.acting_now or (self.rx_we and re and adr == self.rxtx)
+        if pop and u["rx_valid"]:
+            self.q.pop(0)
+        if sv and u["sink_ready"]:
+            self.q.append(sd & 0xff)
+        return None
+
+
+class UartInst(ClientInst):
+    def __init__(self, name, core, dw, stim, gen_stim, gen_bus, rx_we, ordering="big"):
+        ClientInst.__init__(self, name, core, ["r", "r"], dw, stim, gen_stim, gen_bus, ordering)
+        self.rx_we = rx_we
+        self.last_uart = None
+
+    def sample(self):
+        outs = ClientInst.sample(self)
+        n, c = self.netlist, self.core
+        self.last_uart = {"rx_valid": n.getu(c.rx_fifo.source.valid), "rxtx_w": n.getu(c._rxtx.w),
+                          "sink_ready": n.getu(c.sink.ready)}
+        return outs
+
+    def monitor(self):
+        return UartRxMonitor(self, self.rx_we)
+
+
+# ---------------------------------------------------------------------------------------------------------
+# the way an SoC builds it: peripherals as attributes, CSRBankArray + address map, one Interconnect, SharedIRQ
+
+class EvPeriph(Module, AutoCSR):
+    """A user peripheral: AutoCSR module with an EventManager attribute `ev`.  The sources are created without
+    name= in a frame with no assignment, so their name is None and `do_finalize` falls back to `event<i>`."""
+    def __init__(self, kinds):
+        make = {"p": lambda: evm.EventSourcePulse(), "r": lambda: evm.EventSourceProcess(edge="rising"),
+                "f": lambda: evm.EventSourceProcess(), "l": lambda: evm.EventSourceLevel()}
+        self.ev = evm.EventManager()
+        self.made_sources = [make[kind]() for kind in kinds]
+        for k, src in enumerate(self.made_sources):
+            setattr(self.ev, "src%d" % k, src)
+        self.submodules += self.ev
+        self.ev.finalize()
+
+
+class GlueTop(Module):
+    def __init__(self, kinds_list, pages, dw, ordering="big"):
+        self.periphs = []
+        for j, kinds in enumerate(kinds_list):
+            p = EvPeriph(kinds)
+            setattr(self, "periph%d" % j, p)
+            self.submodules += p
+            self.periphs.append(p)
+        page_of = {"periph%d" % j: pages[j] for j in range(len(kinds_list))}
+        self.master = csr_bus.Interface(data_width=dw, address_width=14)
+        self.banks = csr_bus.CSRBankArray(self, lambda name, memory: page_of.get(name) if memory is None else None,
+                                          data_width=dw, address_width=14, paging=0x800, ordering=ordering)
+        self.submodules += self.banks
+        self.submodules += csr_bus.Interconnect(self.master, self.banks.get_buses())
+        self.shared = evm.SharedIRQ(*[p.ev for p in self.periphs])
+        self.submodules += self.shared
+
+
+class GlueMonitor:
+    def __init__(self, inst):
+        self.inst = inst
+        nv = len(inst.views)
+        self.mons = [LostEventMonitor(v, (lambda j=j: inst.last_obs[j]),
+                                      (lambda l, v=v: (v.model_adr(l[nv]), l[nv + 1], l[nv + 2])))
+                     for j, v in enumerate(inst.views)]
+
+    def observe(self, letter, outs):
+        inst = self.inst
+        irqs = [o["irq"] for o in inst.last_obs]
+        if outs[0] != (1 if any(irqs) else 0):
+            return "shared irq=%d but the managers' irq lines are %s" % (outs[0], irqs)
+        exp = 0
+        for o in inst.last_obs:
+            exp |= o["dat_r"]
+        if inst.last_master_dat_r != exp:
+            return "master dat_r=%#x but the banks return %s" % (inst.last_master_dat_r, [o["dat_r"] for o in inst.last_obs])
+        for j, m in enumerate(self.mons):
+            r = m.observe(letter, None)
+            if r:
+                return "manager %d: %s" % (j, r)
+        return None
+
+
+class GlueInst:
+    """letter = (trig_0, …, trig_{m-1}, master.adr, master.we, master.dat_w).  Model: `shared`, every manager sees the
+    same bus access translated into its own bank-local index.  outputs as SharedInst."""
+
+    def __init__(self, kinds_list, pages, dw, ordering="big"):
+        self.top = GlueTop(kinds_list, pages, dw, ordering)
+        self.netlist = Netlist(self.top)
+        rmap = {name: bank for name, csrs, mapaddr, bank in self.top.banks.banks}
+        self.views = []
+        for j, (p, kinds) in enumerate(zip(self.top.periphs, kinds_list)):
+            bank = rmap["periph%d" % j]
+            self.views.append(EvView(p.ev, bank, bank.bus, kinds, pages[j], ordering, dw=dw, srcs=p.made_sources))
+        self.dw = dw
+        self.name = "CSRBankArray+Interconnect+SharedIRQ[%s]@pages%s/csr%d" % (
+            " | ".join(kinds_text(ks) for ks in kinds_list), list(pages), dw)
+        self.lean_open = "shared " + " | ".join("%d %d %s" % (dw, 1 if ordering == "little" else 0, " ".join(ks))
+                                                for ks in kinds_list)
+        self.qual = [None] * (1 + 5 * len(self.views))
+        self.inputs = self.outputs = None
+        self.alphabet = []
+        self.last_obs = None
+        self.last_master_dat_r = 0
+        self._queue = []
+
+    def apply(self, letter):
+        n, nv = self.netlist, len(self.views)
+        for j, v in enumerate(self.views):
+            for k, s in enumerate(v.srcs):
+                n.set(s.trigger, (letter[j] >> k) & 1)
+        m = self.top.master
+        n.set(m.adr, letter[nv])
+        n.set(m.we, letter[nv + 1])
+        n.set(m.dat_w, letter[nv + 2])
+        n.settle()
+
+    def sample(self):
+        n = self.netlist
+        self.last_obs = [v.observe(n) for v in self.views]
+        self.last_master_dat_r = n.getu(self.top.master.dat_r)
+        outs = [n.getu(self.top.shared.irq)]
+        for v, o in zip(self.views, self.last_obs):
+            outs += v.outs(o)
+        return outs
+
+    def model_letter(self, letter):
+        nv = len(self.views)
+        out = []
+        for j, v in enumerate(self.views):
+            out += [letter[j], v.model_adr(letter[nv]), letter[nv + 1], letter[nv + 2]]
+        return tuple(out)
+
+    def nontrivial(self, letter, outs):
+        return bool(outs[0] or letter[len(self.views) + 1])
+
+    def monitor(self):
+        return GlueMonitor(self)
+
+    def gen(self, rng, t):
+        if t == 0:
+            self._queue = []
+        trigs = tuple(rng.getrandbits(v.n) if rng.random() < 0.4 else 0 for v in self.views)
+        x = rng.random()
+        v = rng.choice(self.views)
+        if self._queue:
+            if rng.random() < 0.7:
+                adr, dat = self._queue.pop(0)
+                return trigs + (adr, 1, dat)
+            return trigs + (v.idle_adr(), 0, 0)
+        if x < 0.35:
+            bus = (v.idle_adr(), 0, 0)
+        elif x < 0.5:
+            bus = (v.bus_adr(rng.randrange(3 * v.nw)), 0, 0)
+        elif x < 0.55:
+            # anything anywhere, except single words of a multi-word `pending` (accessor discipline, strict monitor)
+            adr = rng.getrandbits(14)
+            hits = any(w.nw > 1 and w.model_adr(adr) != w.unmapped and w.doc_decode(w.model_adr(adr))[0] == 1
+                       for w in self.views)
+            bus = (v.idle_adr(), 0, 0) if hits else (adr, rng.randint(0, 1), rng.getrandbits(self.dw))
+        elif x < 0.75 or v.nw == 1:
+            l = rng.randrange(v.nw, 3 * v.nw) if v.nw == 1 else rng.randrange(2 * v.nw, 3 * v.nw)
+            bus = (v.bus_adr(l), 1, rng.getrandbits(self.dw))
+        else:
+            value = rng.choice([1 << rng.randrange(v.n), rng.getrandbits(v.n), (1 << v.n) - 1])
+            seq = []
+            for l in range(v.nw, 2 * v.nw):
+                _, w = v.doc_decode(l)
+                seq.append((v.bus_adr(l), (value >> (w * v.bw)) & ((1 << v.bw) - 1)))
+            adr, dat = seq.pop(0)
+            self._queue = seq
+            bus = (adr, 1, dat)
+        return trigs + bus
